@@ -979,8 +979,19 @@ class WebSocketProtocol13(WebSocketProtocol):
     ) -> list[tuple[str, dict[str, str]]]:
         extensions = headers.get("Sec-WebSocket-Extensions", "")
         if extensions:
-            return [httputil._parse_header(e.strip()) for e in extensions.split(",")]
+            return [self._parse_extension(e.strip()) for e in extensions.split(",")]
         return []
+
+    @staticmethod
+    def _parse_extension(ext: str) -> tuple[str, dict[str, Any]]:
+        name, params = httputil._parse_header(ext)
+        # _parse_header drops parameters that have no value, such as
+        # "client_no_context_takeover"; keep them with a value of None.
+        for p in ext.split(";")[1:]:
+            p = p.strip().lower()
+            if p and "=" not in p:
+                params.setdefault(p, None)  # type: ignore
+        return name, params
 
     def _process_server_headers(
         self, key: str | bytes, headers: httputil.HTTPHeaders
